@@ -15,17 +15,10 @@ class ColumnControlConstructionTokenTranslator(AbstractTranslator):
         if token.cell:
             return str(column_index_from_string(token.cell.cell.column))
         elif token.matrix:
-            # Mutates matrix, inplace literal cols with digital
+            # the cells of the area belong to the translation like the cells of any other reference
+            # (mutates matrix, inplace literal cols with digital)
             MatrixOfCellIdentifiersTokenTranslator.translate(token.matrix, excel, context)
-
-            if token.matrix.matrix[0].column == token.matrix.matrix[-1].column:
-                return str(token.matrix.matrix[0].column + 1)
-
-            for i in range(token.matrix.matrix[0].column + 1, token.matrix.matrix[-1].column + 2):
-                # The only way to set multiple cells while parsing single token
-                context.set_cell(token.in_cell, str(i))
-                token.in_cell.column += 1
-            token.in_cell.column = token.matrix.matrix[0].column + 1
-            return context.set_sub_cell(token.in_cell, str(token.in_cell.column))
+            # the number of the leftmost column of the area
+            return str(min(cell.column for cell in token.matrix.matrix) + 1)
         else:
             return token.in_cell.column + 1
